@@ -55,8 +55,9 @@ def entries(u):
 
 
 class Ob:
-    def __init__(self, fn, bb, kind, desc, node):
+    def __init__(self, fn, bb, kind, desc, node, full=None):
         self.fn, self.bb, self.kind, self.desc, self.node = fn, bb, kind, desc, node
+        self.full = full or desc
         self.status = "open"
         self.how = ""
 
@@ -79,7 +80,8 @@ def collect(u, g, reach):
                     continue     # compiler-inserted pointer alignment / null checks (debug assertions), not user-level panics
                 if k == "overflow":
                     desc = "%s %s %s" % (sym.show(sym.expr(b, m["a"]))[:60], m["op"], sym.show(sym.expr(b, m["b"]))[:60])
-                    obs.append(Ob(p, blk["i"], "overflow:" + m["op"], desc, t))
+                    full = "%s %s %s" % (sym.show(sym.expr(b, m["a"])), m["op"], sym.show(sym.expr(b, m["b"])))
+                    obs.append(Ob(p, blk["i"], "overflow:" + m["op"], desc, t, full))
                 elif k == "bounds":
                     obs.append(Ob(p, blk["i"], "bounds", "%s < %s" % (sym.show(sym.expr(b, m["index"]))[:60], sym.show(sym.expr(b, m["len"]))[:60]), t))
                 elif k in ("div_zero", "rem_zero"):
@@ -95,7 +97,7 @@ def collect(u, g, reach):
                 last = n.split("::")[-1]
                 if n.endswith("invariant_ppt::__assert_invariant_impl"):
                     c = sym.expr(b, t["args"][0])
-                    obs.append(Ob(p, blk["i"], "invariant", sym.show(c)[:100], t))
+                    obs.append(Ob(p, blk["i"], "invariant", sym.show(c)[:100], t, sym.show(c)))
                     continue
                 if name in u.bodies:
                     continue
@@ -112,7 +114,8 @@ def collect(u, g, reach):
                     if last == "repeat" and "iter" in n:
                         continue
                     args = ", ".join(sym.show(sym.expr(b, a))[:50] for a in t["args"])
-                    obs.append(Ob(p, blk["i"], "call:" + last, args[:120], t))
+                    full = ", ".join(sym.show(sym.expr(b, a)) for a in t["args"])
+                    obs.append(Ob(p, blk["i"], "call:" + last, args[:120], t, full))
     return obs
 
 
@@ -675,6 +678,7 @@ def check(prog, run):
     obs = collect(u, g, reach)
     cxs = {}
     seen = {}
+    seen_open = {}
     counts = {"D1": 0, "D2": 0, "D3": 0, "open": 0}
     lem = lemmas.Lemmas(u, g, st)
     for ob in obs:
@@ -688,7 +692,12 @@ def check(prog, run):
         key = base + (" #%d" % seen[base] if seen[base] > 1 else "")
         counts[ob.status] += 1
         if ob.status == "open":
-            run.bad("R1", key, "cannot exclude a panic here: %s" % ob.kind, mir.loc_of(ob.node))
+            # undischarged obligations are keyed by *what* can go wrong, not by where the code lives (a moved or merged site keeps
+            # its key; an additional site of the same kind gets the next ordinal and is new)
+            sk = "%s %s" % (ob.kind, mir.site_free_desc(u.bodies[ob.fn], ob.full)[:150])
+            seen_open[sk] = seen_open.get(sk, 0) + 1
+            key = sk + (" #%d" % seen_open[sk] if seen_open[sk] > 1 else "")
+            run.bad("R1", key, "cannot exclude a panic here: %s in %s" % (ob.kind, _kname(ob.fn)), mir.loc_of(ob.node))
         else:
             run.ok("R1", key, "%s: %s" % (ob.status, ob.how), mir.loc_of(ob.node), how="const" if ob.status == "D1" else "structural")
     run.extra["discharge"] = counts
